@@ -438,6 +438,9 @@ def _diff(want, got):
     return "missing=%s extra=%s changed=%s" % (missing[:6], extra[:6], changed[:6])
 
 
+SIG_F20 = "C09:upload-through-dotdot:server-without-mlst"
+
+
 def oracle_op(sc, op, rec):
     """returns a failure dict or None.  Only scenarios marked valid carry an expectation."""
     if not op.get("valid", True):
@@ -486,6 +489,10 @@ def oracle_op(sc, op, rec):
         if f5 and f5["clash"] and rec["status"].startswith("err StatusCodeError"):
             return {"input": inp, "what": "upload raised %s: the children were sent to the wrong place (F5), which is occupied" % rec["status"],
                     "signature": f5["sig"]}
+        if kind == "upload" and not sc["mlsx"] and ".." in op["dest"].split("/") and rec["status"].startswith("err StatusCodeError:550"):
+            # F20 (known finding): make_directory asks exists('..'); without MLST the fallback looks for an entry NAMED '..'
+            # in a listing, finds none, and MKD '..' is refused
+            return {"input": inp, "what": "upload to %r (through '..') on a server without MLST raised %s" % (op["dest"], rec["status"]), "signature": SIG_F20}
         return {"input": inp, "what": "%s raised %s on a valid request" % (kind, rec["status"]), "signature": "C09:%s-raised" % kind}
     if kind == "upload":
         want = spec_upload(pre_r, pre_l, lcwd, rcwd, op["source"], op["dest"], op["wi"])
@@ -687,6 +694,18 @@ def gen_scenarios(ctx, search=False):
                     scs.append(make_scenario(node, node, ["", "d"][(j + k) % 2] if wi else "", wi, "/", m, BLOCKS[n % 3], "", bool(k), src_name=src_name,
                                              rem_name=rem_name, abs_source=True, variant=v - v % 10))  # variant % 2 == 0: relative remote source
                     n += 1
+    # (7) a tree addressed THROUGH `..` from a working directory that is not its parent: list, download, remove, upload
+    for j, node in enumerate(FIXED[:5] + small_dirs[:3]):
+        for m in (True, False):
+            sc = make_scenario(node, node, "../up", True, "/", m, BLOCKS[n % 3], "", False, variant=n - n % 10)
+            up = sc["ops"][0]
+            sc["remote"] = sc["remote"] + hexes([(("w", "deep"), None)])
+            sc["ops"] = [dict(up, rcwd="/w"), {"op": "list", "path": "../t2", "recursive": True, "rcwd": "/w"}, {"op": "list", "path": "../../t2", "recursive": True, "rcwd": "/w/deep"},
+                         {"op": "download", "source": "../t2", "dest": "", "wi": False, "bs": BLOCKS[n % 3], "rcwd": "/w"},
+                         {"op": "list", "path": "..", "recursive": True, "rcwd": "/w"}, {"op": "remove", "path": "../t2", "rcwd": "/w"},
+                         {"op": "list", "path": "/", "recursive": True, "rcwd": "/w"}]
+            scs.append(sc)
+            n += 1
     # destination collisions that must merge / not collide: dest 'd' while the source contains 'd', etc. are in FIXED
     if not search:
         scs += malformed_scenarios()
